@@ -84,6 +84,12 @@ def eval_call(interp, node, env):
                 return interp.eval(node.args[0], oe)
             finally:
                 interp.old_env = saved
+        if name == "at_loop_entry":
+            # in a loop invariant: the value an expression had when the (innermost cut) loop was first reached
+            le = getattr(interp.frame, "loop_entry_env", None) if interp.frame is not None else None
+            if le is None:
+                raise OutOfSubset("at_loop_entry() outside a cut loop")
+            return interp.eval(node.args[0], le)
         if name in interp.registry.spec_funcs:
             args = [interp.eval(a, env) for a in node.args]
             return interp.registry.spec_funcs[name](interp, *args)
